@@ -467,3 +467,50 @@ def mentions(ctx, f, node, word):
         if v is not None and word in U(v):
             return True
     return False
+
+
+def norm_facts_of_test(test):
+    """The conjunct facts a test establishes on its true edge, normalised like norm_facts (negative comparison operators
+    folded into the polarity)."""
+    from ..cfg import conjuncts
+    neg = {ast.NotEq: ast.Eq, ast.NotIn: ast.In, ast.IsNot: ast.Is}
+    out = set()
+    for e, pol in conjuncts(test, True):
+        while isinstance(e, ast.UnaryOp) and isinstance(e.op, ast.Not):
+            e, pol = e.operand, not pol
+        if isinstance(e, ast.Compare) and len(e.ops) == 1 and type(e.ops[0]) in neg:
+            e = ast.Compare(left=e.left, ops=[neg[type(e.ops[0])]()], comparators=e.comparators)
+            pol = not pol
+        out.add((CT(U(e)), pol))
+    return out
+
+
+def cond_blocks(f, loop, cond_texts, target):
+    """Is there an `if` in `loop` testing one of the conditions (either polarity, branch or guard clause) such that, when the
+    condition is TRUE, `target` can no longer be reached in the same iteration?  (`if c: continue` + REST, `if not c: REST`,
+    `if c: pass else: REST` ... all block).  Returns the blocking if-node or None."""
+    cfg = cfg_of(f)
+    want = {}
+    for ct in cond_texts:
+        wf = norm_facts_of_test(ast.parse(ct, mode="eval").body)
+        if len(wf) == 1:
+            (wt, wpol), = wf
+            want[wt] = wpol
+    tgt = cfg.node_of(target)
+    for n in ast.walk(loop):
+        if not isinstance(n, ast.If):
+            continue
+        facts = norm_facts_of_test(n.test)
+        if len(facts) != 1:
+            continue
+        (t, pol), = facts
+        if t not in want:
+            continue
+        succs = cfg.succ_on(n, pol == want[t])         # the edge taken when the condition itself is true
+        reach = False
+        for s_ in succs:
+            if s_ is tgt or (not isinstance(s_, str) and cfg.reachable(s_, tgt, within=loop)):
+                reach = True
+        if not reach:
+            return n
+    return None
